@@ -171,6 +171,11 @@ def gen_cfg(rng, prop, tier):
     if prop == "C18":
         cfg = struct.gen_cfg(rng, "C18", tier)
         cfg["twin"] = {"HMix": "HLight"}
+        if rng.random() < 0.3:
+            # the same comparison with value-equality classes on both sides
+            cfg["menu"] = ["HMixEq"]
+            cfg["classes"] = ["HMixEq"] * len(cfg["classes"])
+            cfg["twin"] = {"HMixEq": "HLightEq"}
     else:
         cfg = struct.gen_cfg(rng, "C02", tier)
         cfg["prop"] = "C17"
@@ -179,6 +184,13 @@ def gen_cfg(rng, prop, tier):
         cfg["menu"] = [base]
         cfg["classes"] = [base] * len(cfg["classes"])
         cfg["targets"] = [None] * len(cfg["classes"])
+        if base in ("HNode", "HAny") and rng.random() < 0.3:
+            # symlink nodes whose targets are instances of the adversarial class
+            cfg["menu"] = [base, "HSym"]
+            for i in range(1, len(cfg["classes"])):
+                if rng.random() < 0.35:
+                    cfg["classes"][i] = "HSym"
+                    cfg["targets"][i] = rng.randrange(i)
         cfg["allow_nn"] = cfg["family"] == "node" and rng.random() < 0.4
         k = rng.choice((1, 1, 2, 3, 5, len(ADV_METHODS)))
         adv = {}
@@ -254,9 +266,10 @@ def run(cfg, ops=None, rng=None):
                 if n_struct >= length:
                     if res.ops and res.ops[-1]["op"] == "query":
                         break
-                    op = {"op": "query", "qseed": rng.randrange(1 << 30), "heavy": cfg["q_heavy"]}
+                    op = {"op": "query", "qseed": rng.randrange(1 << 30), "heavy": cfg["q_heavy"], "part": rng.choice((None, None, 0.2))}
                 elif n_struct > 0 and res.ops[-1]["op"] != "query" and rng.random() < cfg["q_rate"]:
-                    op = {"op": "query", "qseed": rng.randrange(1 << 30), "heavy": cfg["q_heavy"] and rng.random() < 0.3}
+                    op = {"op": "query", "qseed": rng.randrange(1 << 30), "heavy": cfg["q_heavy"] and rng.random() < 0.3,
+                          "part": rng.choice((None, 0.1, 0.3, 0.6))}
                 else:
                     op = gen_op(rng, model, cfg, step)
                     n_struct += 1
@@ -265,9 +278,9 @@ def run(cfg, ops=None, rng=None):
                 snap = wa.snapshot()
                 ACTIVE[0] = None
                 full = prop == "C17"  # C18 names navigation, iterators, Walker, Resolver, RenderTree only
-                ra = battery(wa, snap, op["qseed"], heavy=op.get("heavy", True), exporters=full, helpers=full)
+                ra = battery(wa, snap, op["qseed"], heavy=op.get("heavy", True), exporters=full, helpers=full, part=op.get("part"))
                 _probe_violation(prop, step, op, "plain universe")
-                rb = battery(wb, snap, op["qseed"], heavy=op.get("heavy", True), exporters=full, helpers=full)
+                rb = battery(wb, snap, op["qseed"], heavy=op.get("heavy", True), exporters=full, helpers=full, part=op.get("part"))
                 _probe_violation(prop, step, op, "query battery")
                 res.bump("batteries")
                 res.bump("queries", len(ra))
